@@ -213,6 +213,19 @@ def run_one(ctx, case):
         u2 = utils.base_and_dirs2utpm(x2, V2)
         if not np.array_equal(u2.data, u.data):
             return 'basedirs-roundtrip: converse round trip differs'
+        # the extracted arrays are the caller's own: a later in-place update of the polynomial (or of the arrays) must not
+        # change what was extracted (the round trip from the saved pair still gives the polynomial that was converted)
+        saved = u.data.copy()
+        for arr, nm in ((x2, 'base point'), (V2, 'directions')):
+            if isinstance(arr, np.ndarray) and arr.size and np.shares_memory(arr, u.data):
+                return 'basedirs-alias: the %s returned by utpm2base_and_dirs is a view of the polynomial' % nm
+        for arr, nm in ((u.data, 'base_and_dirs2utpm result'),):
+            for src, sn in ((np.asarray(xin) if isinstance(xin, np.ndarray) else None, 'base point'), (V, 'directions')):
+                if src is not None and src.size and np.shares_memory(arr, src):
+                    return 'basedirs-alias: the %s is a view of the caller\'s %s' % (nm, sn)
+        u.data[...] *= 2.0
+        if not np.array_equal(utils.base_and_dirs2utpm(x2, V2).data, saved):
+            return 'basedirs-alias: the pair extracted earlier changed when the polynomial was updated in place'
         return None
     if k == 'utpm2dirs':
         x = np.array(case['x'])
